@@ -1172,6 +1172,22 @@ impl Transaction {
             }
 
             //
+            // outputs that have fallen out of the genesis window were either rebroadcast
+            // or collected as fees by the block that followed the window, so they can
+            // no longer be spent
+            //
+            if validate_against_utxo {
+                let latest_block_id = blockchain.get_latest_block_id();
+                if self.from.iter().any(|slip| {
+                    slip.amount > 0
+                        && slip.block_id.saturating_add(blockchain.genesis_period) < latest_block_id
+                }) {
+                    error!("ERROR 582041: transaction spends an input older than the genesis period");
+                    return false;
+                }
+            }
+
+            //
             // validate routing path sigs
             //
             // it strengthens censorship-resistance and anti-MEV properties in the network
